@@ -1,6 +1,7 @@
 use crate::core::Prop;
+pub mod c06;
 pub mod c09;
 
 pub fn all() -> Vec<&'static Prop> {
-    vec![&c09::PROP]
+    vec![&c06::PROP, &c09::PROP]
 }
